@@ -94,8 +94,8 @@ def kani_group(pid, gname, group, harnesses, jobs, workdir):
             res[h] = {"status": "tool_error", "detail": "no kani json (exit %d)" % p.returncode}
         return res, wall, tail
     d = json.load(open(out_json))
-    stats = {c["harness_id"]: c.get("cbmc_stats", {}) for c in d.get("cbmc", [])}
-    pdet = {c["harness_id"]: c.get("property_details", {}) for c in d.get("property_details", [])}
+    stats = {c["harness_id"]: (c.get("cbmc_stats") or {}) for c in d.get("cbmc", [])}
+    pdet = {c["harness_id"]: (c.get("property_details") or {}) for c in d.get("property_details", [])}
     meta = {c["pretty_name"]: c for c in d.get("harness_metadata", [])}
     for r in d.get("verification_results", {}).get("results", []):
         hid = r["harness_id"]
@@ -117,8 +117,8 @@ def kani_group(pid, gname, group, harnesses, jobs, workdir):
             "unwinding_failures": len(unw),
             "covers_satisfied": pd.get("satisfied", 0),
             "covers_unsat": pd.get("unsatisfiable", 0),
-            "solver_s": stats.get(hid, {}).get("runtime_solver_s", 0.0),
-            "symex_s": stats.get(hid, {}).get("runtime_symex_s", 0.0),
+            "solver_s": (stats.get(hid) or {}).get("runtime_solver_s", 0.0),
+            "symex_s": (stats.get(hid) or {}).get("runtime_symex_s", 0.0),
             "mangled": meta.get(hid, {}).get("mangled_name"),
         }
         if r.get("status") == "Success" and not failed and not undet and not unw:
